@@ -65,19 +65,37 @@ func runM4Sequence(vb *vbuf, init int, seq [][]int) {
 	if init == 1 {
 		cur = []byte{0, 0, 1, 0xB0, 0x01, 0, 0, 1, 0xB5, 0x09, 0, 0, 1, 0x20, 0xAA} // VOS,VO,VOL1
 	}
-	s := newSession(&format.MPEG4Video{PayloadTyp: 96, Config: cur})
-	defer s.close()
+	initCfg := cur
+	// the initial configuration comes from a parsed session description: a sub-slice of a decode buffer with
+	// spare capacity as well
+	sdpAr := newArena(64, 1)
+	var sdpCfg []byte
+	if cur != nil {
+		sdpCfg = sdpAr.carve(cur, "initial description configuration")
+	}
+	s := newSession(&format.MPEG4Video{PayloadTyp: 96, Config: sdpCfg})
+	closed := false
+	defer func() {
+		if !closed {
+			s.close()
+		}
+	}()
 	names := make([]string, len(seq))
 	frames := make([][]byte, len(seq))
+	total := 0
 	for i, l := range seq {
 		frames[i], names[i] = m4Frame(l)
+		total += len(frames[i])
 	}
+	// the publisher's receive buffer: every frame of the sequence is a sub-slice of it (cap > len)
+	ar := newArena(total, len(seq))
+	tr := &tracker{arenas: []*arena{ar, sdpAr}}
 	for step := range seq {
 		rep := map[string]any{"codec": "mpeg4video", "initial_config": fmt.Sprintf("%x", cur), "frames": names, "failing_frame_index": step}
 		before := cur
 		var want []byte
 		cur, want = m4Ref(cur, frames[step])
-		in := append([]byte(nil), frames[step]...)
+		in := ar.carve(frames[step], fmt.Sprintf("input frame %d [%s]", step, names[step]))
 		u := s.write(unit.PayloadMPEG4Video(in), int64(3000*(step+1)))
 		r.Eval(1)
 		if u == nil && s.panicked != "" {
@@ -108,8 +126,12 @@ func runM4Sequence(vb *vbuf, init int, seq [][]int) {
 				before, names[step], desc, cur, names), rep)
 			return
 		}
-		if !bytes.Equal(in, frames[step]) {
-			vb.add("mpeg4video:input-mutated", fmt.Sprintf("mpeg4video frame [%s]: input bytes modified", names[step]), rep)
+		// aliasing over time: what was delivered / handed over / reported before must still read the same
+		tr.retainPayload(step, u.Payload)
+		tr.retainDesc(step, [][]byte{desc})
+		if f := tr.check(fmt.Sprintf("after frame %d [%s] was written", step, names[step])); f != nil {
+			vb.add("mpeg4video:"+f.key, fmt.Sprintf("mpeg4video initial config %x, frames %v: %s", initCfg, names, f.what), rep)
+			return
 		}
 		changed := !bytes.Equal(before, cur)
 		if changed {
@@ -123,6 +145,12 @@ func runM4Sequence(vb *vbuf, init int, seq [][]int) {
 		if len(seq) == 1 && changed && pre && init == 1 {
 			r.Sample(map[string]any{"codec": "mpeg4video", "frame": names[step], "delivered": fmt.Sprintf("%x", got), "description_after": fmt.Sprintf("%x", cur)})
 		}
+	}
+	s.close()
+	closed = true
+	if f := tr.check("after the stream was closed"); f != nil {
+		vb.add("mpeg4video:"+f.key, fmt.Sprintf("mpeg4video initial config %x, frames %v: %s", initCfg, names, f.what),
+			map[string]any{"codec": "mpeg4video", "initial_config": fmt.Sprintf("%x", initCfg), "frames": names, "failing_frame_index": len(seq) - 1})
 	}
 }
 
@@ -158,14 +186,14 @@ func runMPEG4Video(thorough bool) int64 {
 // ---------- AV1 ----------
 
 var av1syms = []sym{
-	{"FRAME", []byte{0x32, 0x01}, clsOther, 0},     // OBU_FRAME
-	{"TD", []byte{0x12, 0x00}, clsAUD, 0},          // temporal delimiter with size field
-	{"SEQ", []byte{0x0a, 0x01}, clsOther, 0},       // sequence header
-	{"TD1", []byte{0x10}, clsAUD, 0},               // temporal delimiter, 1 byte
-	{"META", []byte{0x2a, 0x01}, clsOther, 0},      // metadata
-	{"TILEGRP", []byte{0x22, 0x01}, clsOther, 0},   // tile group
-	{"PADDING", []byte{0x7a, 0x01}, clsOther, 0},   // padding
-	{"FRAMEHDR", []byte{0x1a, 0x01}, clsOther, 0},  // frame header
+	{"FRAME", []byte{0x32, 0x01}, clsOther, 0},    // OBU_FRAME
+	{"TD", []byte{0x12, 0x00}, clsAUD, 0},         // temporal delimiter with size field
+	{"SEQ", []byte{0x0a, 0x01}, clsOther, 0},      // sequence header
+	{"TD1", []byte{0x10}, clsAUD, 0},              // temporal delimiter, 1 byte
+	{"META", []byte{0x2a, 0x01}, clsOther, 0},     // metadata
+	{"TILEGRP", []byte{0x22, 0x01}, clsOther, 0},  // tile group
+	{"PADDING", []byte{0x7a, 0x01}, clsOther, 0},  // padding
+	{"FRAMEHDR", []byte{0x1a, 0x01}, clsOther, 0}, // frame header
 }
 
 func runAV1(thorough bool) int64 {
@@ -181,23 +209,34 @@ func runAV1(thorough bool) int64 {
 	vbs := make([]vbuf, nChunks)
 	vcommon.Parallel(nChunks, func(ci int) {
 		var s *session
+		var tr *tracker
+		trStart := 0
 		for li := ci * chunk; li < min((ci+1)*chunk, len(lists)); li++ {
 			if s == nil || li < 600 {
 				if s != nil {
 					s.close()
 				}
 				s = newSession(&format.AV1{PayloadTyp: 96})
+				tr = &tracker{}
+				trStart = li
 			}
 			l := lists[li]
-			var in, want [][]byte
+			var elems, want [][]byte
 			names := make([]string, len(l))
+			total := 0
 			for i, si := range l {
-				in = append(in, av1syms[si].b)
+				elems = append(elems, av1syms[si].b)
+				total += len(av1syms[si].b)
 				names[i] = av1syms[si].name
 				if av1syms[si].cls != clsAUD {
 					want = append(want, av1syms[si].b)
 				}
 			}
+			// every OBU is a sub-slice of the publisher's receive buffer of this temporal unit (cap > len); the
+			// units written earlier on the same stream stay retained and are re-compared after this one
+			ar := newArena(total, len(l))
+			tr.arenas = append(tr.arenas, ar)
+			in := tr.carveList(ar, li, elems, names)
 			rep := map[string]any{"codec": "av1", "obus": names}
 			u := s.write(unit.PayloadAV1(in), int64(3000*(li+1)))
 			r.Eval(1)
@@ -222,6 +261,13 @@ func runAV1(thorough bool) int64 {
 			if !equalLists(got, want) {
 				vbs[ci].add("av1:payload-mismatch", fmt.Sprintf("av1 temporal unit %v: delivered %s, reference %s", names, hexList(got), hexList(want)), rep)
 			}
+			tr.retainPayload(li, u.Payload)
+			if f := tr.check(fmt.Sprintf("after temporal unit #%d %v was written", li, names)); f != nil {
+				vbs[ci].add("av1:"+f.key, fmt.Sprintf("av1 (units are numbered by enumeration index; stream started at unit #%d): %s", trStart, f.what), rep)
+				// start over on a fresh stream: what is retained is no longer trustworthy
+				s.close()
+				s = nil
+			}
 			if len(got) == 0 {
 				count(&emptied)
 			}
@@ -236,6 +282,10 @@ func runAV1(thorough bool) int64 {
 		}
 		if s != nil {
 			s.close()
+			if f := tr.check("after the stream was closed"); f != nil {
+				vbs[ci].add("av1:"+f.key, fmt.Sprintf("av1 (units are numbered by enumeration index; stream started at unit #%d): %s", trStart, f.what),
+					map[string]any{"codec": "av1", "stream_started_at_enumeration_index": trStart})
+			}
 		}
 	})
 	flushAll(vbs)
@@ -248,11 +298,13 @@ func ruleText(thorough bool) string {
 			"every pair (a1 of <=3 [H.265: <=2] NALUs, a2 of <=3), every triple (a1,a2 of 1 NALU, a3 of <=3); " +
 			"MPEG-4 Video (7 segment symbols: VOP, GOV, VOS, VOL1, VOL2, VO, stray byte): every frame of <=5 segments and every pair (<=3, <=4) x initial config {none, VOS+VO+VOL1}; " +
 			"AV1 (8 OBU symbols, 2 temporal delimiter forms): every temporal unit of <=6 OBUs. " +
-			"Each sequence on a fresh real Stream; distinct = (codec, parameter state before, unit shape by NALU class, parameters prepended, description changed, delivered length)"
+			"Each sequence on a fresh real Stream; every input element is a sub-slice (cap > len) of one receive buffer per sequence, and every delivered payload, description copy, input list and receive buffer is re-compared with its snapshot after every later write and after Close; " +
+			"distinct = (codec, parameter state before, unit shape by NALU class, parameters prepended, description changed, delivered length)"
 	}
 	return "H.264 (9 NALU symbols) and H.265 (12 symbols): x initial description parameters {none, all}: every single access unit of <=3 NALUs and " +
 		"every pair (a1 of <=2 [H.265: 1] NALUs, a2 of <=3); " +
 		"MPEG-4 Video (7 segment symbols: VOP, GOV, VOS, VOL1, VOL2, VO, stray byte): every frame of <=4 segments and every pair (<=2, <=3) x initial config {none, VOS+VO+VOL1}; " +
 		"AV1 (8 OBU symbols, 2 temporal delimiter forms): every temporal unit of <=4 OBUs. " +
-		"Each sequence on a fresh real Stream; distinct = (codec, parameter state before, unit shape by NALU class, parameters prepended, description changed, delivered length)"
+		"Each sequence on a fresh real Stream; every input element is a sub-slice (cap > len) of one receive buffer per sequence, and every delivered payload, description copy, input list and receive buffer is re-compared with its snapshot after every later write and after Close; " +
+		"distinct = (codec, parameter state before, unit shape by NALU class, parameters prepended, description changed, delivered length)"
 }
